@@ -43,7 +43,7 @@ def c05(tier, seed):
             Stage('batchids', mc=('BatchIdsMC', 'BatchIds_%s.cfg' % t), emit=('BatchIdsMC', 'BatchIds_%s_emit.cfg' % t),
                   driver='batchids', trace=('BatchIdsTrace', 'BatchIdsTrace.cfg'),
                   nontrivial=lambda tr: len(tr['ev']) >= 2)],
-        rule='every message of the model alphabets (requests, responses, errors, batches of length 0..%d, batch-level '
+        rule='(error classes: standard, user classes for 2001 / 0, a scoping base with its own get_error_cls, a history of registrations for 2002; strict and non-strict batches) every message of the model alphabets (requests, responses, errors, batches of length 0..%d, batch-level '
              'errors) is built with the real constructors, serialised (to_json and JSONEncoder), decoded, '
              'deserialised and serialised again; a case is non-trivial when its trace has the Ser, Parse and Reser '
              'events and TLC accepted it; distinct = distinct abstract message' % (2 if tier == 'quick' else 3),
@@ -61,7 +61,7 @@ def c06(tier, seed):
     ]
     return dict(
         stages=st,
-        rule='full product of the per-member alphabets for request / error objects, a reduced product for responses '
+        rule='(strict and non-strict batch objects; a scoping base class among the bases) full product of the per-member alphabets for request / error objects, a reduced product for responses '
              'in the quick tier (full in thorough), batches of up to %d elements, all append/extend histories within '
              'the bounds of BatchIds_%s.cfg; non-trivial = the document passes the first member check (>=2 events) '
              'or the history contains a rejected operation' % (2 if tier == 'quick' else 3, t),
@@ -91,7 +91,7 @@ def c01(tier, seed):
     if tier != 'quick':
         stages += [randomized(x, seed) for x in stages]
     return dict(stages=stages,
-                rule='single request objects over the full product of member alphabets (jsonrpc x id x method x params), '
+                rule='(plus batches behind self-answering / dropping middlewares, ids that are arrays / objects, a notification failing while being bound) single request objects over the full product of member alphabets (jsonrpc x id x method x params), '
                      'non-object JSON values, non-JSON text classes, 5000-digit literals, batches of <= %d elements over a '
                      '12-element alphabet x {sync, async+coroutines, async+plain functions} x max_batch_size {unset,0,1,2}; '
                      'non-trivial = a method, middleware or handler ran before the reply (>= 2 events)' % (2 if tier == 'quick' else 3),
@@ -168,7 +168,7 @@ def c10(tier, seed):
                       nontrivial=lambda tr: sum(1 for e in tr['ev'] if e['ev'] == 'Release') >= 2),
                 # liveness of the model under weak fairness: every schedule ends with the batch answered
                 Stage('asyncbatch_liveness', mc=('AsyncBatchMC', 'AsyncBatch_live.cfg'))],
-        rule='every release order (interleaving) of batches of %s elements, each with 0..2 suspension points placed in the '
+        rule='(element kinds include views with / without a context; sequential mode also behind a plain-function middleware that schedules its handler eagerly; the return of dispatch() is logged when it happens) every release order (interleaving) of batches of %s elements, each with 0..2 suspension points placed in the '
              'middleware (before/after the handler), the method or the error handler; element types: ok / failing / plain '
              'function / notifications; concurrent and sequential mode.  The schedules are TLC\'s: each terminal state of '
              'the model is one schedule, replayed on the real AsyncDispatcher with driver-owned futures; non-trivial = '
@@ -224,7 +224,9 @@ def c09(tier, seed):
     http = Stage('httpclient', mc=('HttpClientMC', 'HttpClient.cfg'), emit=('HttpClientMC', 'HttpClient_emit.cfg'),
                  driver='httpclient', trace=('HttpClientTrace', 'HttpClientTrace.cfg'), drive_shards=8, selftest=False)
     return dict(stages=[retry_stage('c09_' + t), Stage('retry_liveness', mc=('Retry_c09_quick', 'Retry_c09_live.cfg')), http],
-                rule='every outcome sequence the environment can produce (TLC explores the transport\'s choices attempt by '
+                rule='(plus: two requests on one client with different per-request strategies; the real HTTP backends against a loopback server - '
+                     'exactly one POST per send, also when the connection is dropped after an earlier success) '
+                     'every outcome sequence the environment can produce (TLC explores the transport\'s choices attempt by '
                      'attempt; terminal states = complete fault sequences) for n in 0..%d x codes/exceptions sets (None, '
                      'empty, one, several) x 7 backoff configurations (periodic, exponential, Fibonacci; jitter, caps, default '
                      'Fibonacci cap, cap below the first delay) x single / batch / notification x client-wide / per-request / '
@@ -236,7 +238,7 @@ def c09(tier, seed):
 def c19(tier, seed):
     t = 'quick' if tier == 'quick' else 'thorough'
     return dict(stages=[retry_stage('c19_' + t)],
-                rule='every per-attempt outcome sequence (ok, error responses, transport exceptions incl. subclasses, undecodable '
+                rule='(tracers built on Tracer and on the library\'s LoggingTracer, caller contexts with and without attributes, requests made from inside an exception handler) every per-attempt outcome sequence (ok, error responses, transport exceptions incl. subclasses, undecodable '
                      'body, identity mismatch, unexpected body, BaseException) permitted by strategies of 0..%d attempts x 0..3 '
                      'tracers x caller-supplied / default trace context x single / batch / notification x sync / async; '
                      'non-trivial = at least two sends' % (2 if tier == 'quick' else 3),
@@ -250,7 +252,7 @@ def c08(tier, seed):
                               driver='client', trace=('ClientTrace', 'ClientTrace.cfg'),
                               deviations={'ServerOrderResults': 'ClientTrace_dev_ServerOrderResults.cfg'},
                               nontrivial=lambda tr: len(tr['ev']) >= 2)],
-                rule='the server as an adversary: for batches of calls (+ notifications) EVERY response array of length 0..4 over '
+                rule='(batch requests filled in four ways incl. non-strict objects, wrapper objects that made a round trip before, ids of an invalid JSON type that compare equal to the request id) the server as an adversary: for batches of calls (+ notifications) EVERY response array of length 0..4 over '
                      'the element alphabet (own ids in any order / repeated / missing, the id as a string, a foreign id, null ids, '
                      'results and errors, malformed elements), batch-level error objects, non-JSON and scalar bodies; for single '
                      'calls every id relation x body; x strict on/off; every scenario runs on the sync AND the async client; '
@@ -350,7 +352,7 @@ def c20(tier, seed):
                driver='mocker', trace=('MockerTrace', 'MockerTrace.cfg'),
                nontrivial=lambda tr: sum(1 for e in tr['ev'] if e['k'] in ('single', 'batch')) >= 2)
     return dict(stages=[st],
-                rule='operation histories over 2 endpoints x 2 methods x {result, error, callback} patches x once on/off x '
+                rule='(plus identically configured once-patches, replacement at negative indices, the real httpx backend as patched transport) operation histories over 2 endpoints x 2 methods x {result, error, callback} patches x once on/off x '
                      'replace at index 0/1 x remove (pair / endpoint) x reset x single / batch calls with ids 0, 1, "" and '
                      'positional / named params x passthrough on/off: ALL histories of length 3 over a %d-operation alphabet '
                      '(TLC exhaustive) plus %d random walks of length 7 over the full 39-operation alphabet (tlc -simulate, seeded '
@@ -372,7 +374,7 @@ def c15(tier, seed):
                driver='registry', trace=('RegistryTrace', 'RegistryTrace.cfg'),
                nontrivial=lambda tr: any(e['ev'] == 'Probe' and e['reached'] not in ('none',) for e in tr['ev']))
     return dict(stages=[st],
-                rule='registration histories over {add, add with explicit (dotted) name, view with / without prefix, merge} on 4 '
+                rule='(view classes: a plain view, a view derived from it, a view inheriting handlers from a plain base class; spelling variants: add_methods(function / Method), one reused decorator object, decorator form of view) registration histories over {add, add with explicit (dotted) name, view with / without prefix, merge} on 4 '
                      'registries (prefixes none, "a", "a.b", and the dispatcher\'s own): %s; histories are replayed on real '
                      'MethodRegistry objects and a sync or async dispatcher (alternating); after every operation every registry\'s '
                      'key -> target table is validated, and at the end the dispatcher is probed with every registered name, every '
@@ -403,7 +405,7 @@ def c18(tier, seed):
                trace=('HttpGateTrace', 'HttpGateTrace.cfg'), drive_shards=8, pairing=(key, obs),
                nontrivial=lambda tr: tr['ev'] and tr['ev'][0].get('execs', 0) > 0)
     return dict(stages=[st],
-                rule='integrations {aiohttp (loopback test server), flask, werkzeug (test clients)} x 25 media types (each documented '
+                rule='(as built now: 39 media types incl. charset parameters other than utf-8, 11 body classes incl. parameters that do not bind, a status function over the whole tuple of codes, a third endpoint - aiohttp: sub-application) integrations {aiohttp (loopback test server), flask, werkzeug (test clients)} x 25 media types (each documented '
                      'type plain / with charset / upper-case / both / with spaces; near-miss, unrelated, +json suffix, missing header) x '
                      '10 body classes (call, failing call, notification, batches, unknown method, invalid, not JSON, not UTF-8) x '
                      'default / custom status function x main / additional endpoint: the full product (3000 requests); every reply is '
